@@ -94,6 +94,24 @@ class PathCtx:
             ok, _ = self.check(pc + [z3.Or(*[self.is_skip(i) != w[i] for i in range(self.n)])])
             if ok: raise Unsupported('path condition does not determine which tokens are skipped')
         return w
+    def trivia_cases(self, res, pc):
+        """[(pc', trivia flags)]: normally one case; if the path never asked whether some token is skipped (so the path
+        condition leaves it open) the class is split by the solver into the feasible skipped / not-skipped cases"""
+        try:
+            return [(pc, self.trivia(res, pc))]
+        except Unsupported:
+            pass
+        cases = [(list(pc), [])]
+        for i in range(self.n):
+            nxt = []
+            for p, fl in cases:
+                for val in (True, False):
+                    c = self.is_skip(i) if val else z3.Not(self.is_skip(i))
+                    ok, _ = self.check(p + [c])
+                    if ok: nxt.append((p + [c], fl + [val]))
+            cases = nxt
+            if len(cases) > 64: raise Unsupported('too many undetermined trivia positions')
+        return cases
     def oracle(self, core, start):
         key = (tuple(core), start)
         o = self.oracles.get(key)
@@ -163,8 +181,21 @@ def eval_c02(g, h, cx, res, out):
         out.append(Violation('C02', 'root-extent', g, res, f'root extent {nodes[0]} does not cover the node vector of length {len(nodes)}')); return
     m = flat_check(nodes, 0, len(nodes) - 1)
     if m: out.append(Violation('C02', 'extent', g, res, m)); return
-    pc = cx.pc(res)
-    triv = cx.trivia(res, pc)
+    pc0 = cx.pc(res)
+    for pc, triv in cx.trivia_cases(res, pc0):
+        if _c02_tree(g, h, cx, res, out, pc, triv): return
+    # node-created callbacks: announced kind present, extent closed inside the vector at the time of the call
+    for e in res.log:
+        kind, rid, node, pos, inch, nlen, nrule, noff = e[:8]
+        if kind != 1: continue
+        name = h.rule_names[rid]
+        want = h.rule_enum.index(harness.pascal(name))
+        if nrule != want or node + noff >= nlen:
+            out.append(Violation('C02', 'create-callback', g, res, f'create_node_{name}(NodeRef({node})): node there has rule #{nrule} offset {noff} (vector length {nlen}), announced {want}')); return
+    for bad in (res.cb or []):
+        out.append(Violation('C02', 'create-callback-subtree', g, res, bad)); return
+
+def _c02_tree(g, h, cx, res, out, pc, triv):
     def rec(w, is_root):
         if w[0] == 'T': return None
         prev_hi = None
@@ -180,17 +211,10 @@ def eval_c02(g, h, cx, res, out):
                 if c[0] == 'T' and c[4] < len(triv) and triv[c[4]]: return f'rule node {w[-1]} {what} with a skipped token (index {c[4]})'
         return None
     m = rec(res.walk, True)
-    if m: out.append(Violation('C02', 'span-or-trivia', g, res, m)); return
-    # node-created callbacks: announced kind present, extent closed inside the vector at the time of the call
-    for e in res.log:
-        kind, rid, node, pos, inch, nlen, nrule, noff = e[:8]
-        if kind != 1: continue
-        name = h.rule_names[rid]
-        want = h.rule_enum.index(harness.pascal(name))
-        if nrule != want or node + noff >= nlen:
-            out.append(Violation('C02', 'create-callback', g, res, f'create_node_{name}(NodeRef({node})): node there has rule #{nrule} offset {noff} (vector length {nlen}), announced {want}')); return
-    for bad in (res.cb or []):
-        out.append(Violation('C02', 'create-callback-subtree', g, res, bad)); return
+    if m:
+        ok, mdl = cx.check(pc)
+        out.append(Violation('C02', 'span-or-trivia', g, res, m, witness=cx.model_tokens(mdl) if ok else None)); return True
+    return False
 
 # ---------------------------------------------------------------- C03
 def eval_c03(g, h, cx, res, out):
@@ -242,7 +266,31 @@ def eval_c06(g, h, cx, res, out):
         w = cx.model_tokens(m)
         out.append(Violation('C06', 'first-error-position', g, res, f'first diagnostic at non-trivia index {q} (token {p0}) is not the first offending token', witness=w))
 
-EVALS = {'C01': eval_c01, 'C02': eval_c02, 'C03': eval_c03, 'C04': eval_c04, 'C06': eval_c06}
+def per_trivia_case(f):
+    """run an evaluator once per feasible skipped/not-skipped case when the path condition leaves trivia-ness open"""
+    def g_(g, h, cx, res, out):
+        if res.status != 'ok': return f(g, h, cx, res, out)
+        pc0 = cx.pc(res)
+        try:
+            cx.trivia(res, pc0)
+            return f(g, h, cx, res, out)
+        except Unsupported:
+            pass
+        orig_pc, orig_triv = cx.pc, cx.trivia
+        try:
+            for pc, triv in cx.trivia_cases(res, pc0):
+                cx.pc = lambda r, pc=pc: list(pc)
+                cx.trivia = lambda r, p, triv=triv: list(triv)
+                ok, m = cx.check(pc)
+                w0 = res.witness
+                if ok: res.witness = cx.model_tokens(m)
+                try: f(g, h, cx, res, out)
+                finally: res.witness = w0
+        finally:
+            cx.pc, cx.trivia = orig_pc, orig_triv
+    return g_
+
+EVALS = {'C01': eval_c01, 'C02': eval_c02, 'C03': eval_c03, 'C04': per_trivia_case(eval_c04), 'C06': per_trivia_case(eval_c06)}
 
 # ---------------------------------------------------------------- per-grammar job
 def confirm_native(h, v):
@@ -656,7 +704,7 @@ def eval_c08(g, h, cx, res, out):
                 out.append(Violation('C08', 'diagnostic-after-backtrack', g, res, f'syntax diagnostics at positions {[x[2] for x in res.diags]}: a position is reported twice after an abandoned alternative')); return
             last = d[2]
 
-EVALS.update({'C05': eval_c05, 'C04p': eval_c04_prio, 'C08': eval_c08})
+EVALS.update({'C05': per_trivia_case(eval_c05), 'C04p': per_trivia_case(eval_c04_prio), 'C08': eval_c08})
 
 # ---------------------------------------------------------------- C15 (partial): declaration order does not change the generated parser's behaviour
 def named_walk(h, w):
